@@ -823,6 +823,7 @@ def write_evidence(pid, tier, seed, cfg, proof_info, regen_info, corr, extra_inf
         "failed_obligations": proof_info.get("failed", []),
         "regeneration": regen_info,
         "lake_build_s": proof_info.get("lake_build_s"),
+        "leanchecker_rc": proof_info.get("leanchecker_rc"),
         "traces_validated_against_impl": corr.sequences - len(corr.violations),
         "evaluations": corr.evaluations,
         "distinct_nontrivial": len(corr.distinct),
